@@ -114,7 +114,9 @@ def main():
                 for ci, cont in enumerate(conts):
                     kind = rng.choice(['json', 'gz', 'zip'] if mode != 'merged' else ['json', 'gz'])
                     kinds.append(kind)
-                    paths.append(write_container(rng, rng.choice(dirs), 'res%d' % ci, cont, kind))
+                    # file names with extra dots (a rate or a bias ratio in the name), as users and scripts write them
+                    nm_ = rng.choice(['res%d', 'results_p0.05_%d', 'results_eta-0.5.run%d'])
+                    paths.append(write_container(rng, rng.choice(dirs), nm_ % ci, cont, kind))
                 if mode == 'merged':
                     # the files are first merged by the command-line tool (files holding a list AND files holding a single record)
                     from panqec.cli import merge_results
